@@ -14,7 +14,10 @@ import (
 //   - tool-call fragments are merged by index       (one resulting call per distinct index; the resulting
 //     calls are listed by ascending index)
 //
-// It says nothing about fragments without an index, about roles/names/ids, usage, finish reason or extras,
+//   - fragments without an index are never merged; their arguments keep arrival order too (checked as the RELATIVE
+//     order of those fragments in the result, and only when their arguments are pairwise distinct)
+//
+// It says nothing about where the fragments without an index stand, about roles/names/ids, usage, finish reason or extras,
 // and nothing about when an error is due: those are covered only by clauses (1)-(3).
 // It is applied only where at least two real (non-nil) chunks are concatenated: a single chunk is returned
 // as it is by the stream entry points and the statement does not say that it must be normalised.
@@ -52,6 +55,29 @@ func msgModel(chunks []*schema.Message, out *schema.Message) []failure {
 			}
 			groups[*tc.Index] = append(groups[*tc.Index], tc.Function.Arguments)
 		}
+	}
+	// fragments without an index: relative arrival order
+	var noIdxWant, noIdxGot []string
+	distinct := map[string]bool{}
+	allDistinct := true
+	for _, c := range chunks {
+		for _, tc := range c.ToolCalls {
+			if tc.Index == nil {
+				if distinct[tc.Function.Arguments] {
+					allDistinct = false
+				}
+				distinct[tc.Function.Arguments] = true
+				noIdxWant = append(noIdxWant, tc.Function.Arguments)
+			}
+		}
+	}
+	for _, tc := range out.ToolCalls {
+		if tc.Index == nil {
+			noIdxGot = append(noIdxGot, tc.Function.Arguments)
+		}
+	}
+	if allDistinct && len(noIdxWant) > 1 && strings.Join(noIdxWant, "\x00") != strings.Join(noIdxGot, "\x00") {
+		fails = append(fails, mf("model-toolcall-noindex-order", "tool calls without an index carry the arguments %q in the result, their arrival order is %q", noIdxGot, noIdxWant))
 	}
 	if out.Content != text.String() {
 		fails = append(fails, mf("model-content", "content is %q, the chunks' text in arrival order is %q", out.Content, text.String()))
